@@ -347,6 +347,13 @@ static bool abandoned_visitor(const mi_heap_t* heap, const mi_heap_area_t* area,
   if (block != NULL && navis < 4096) { avis[navis].b = (uint8_t*)block; avis[navis].sz = bsize; navis++; }
   return true;
 }
+static int stop_calls = 0, stop_seen = 0;
+static bool stopping_visitor(const mi_heap_t* heap, const mi_heap_area_t* area, void* block, size_t bsize, void* arg) {
+  (void)heap; (void)area; (void)bsize; (void)arg;
+  if (stop_seen) { stop_calls++; return false; }      // called again after having returned false
+  if (block != NULL) { stop_seen = 1; return false; }
+  return true;
+}
 static void check_abandoned_visit(void) {
   navis = 0;
   if (!mi_abandoned_visit_blocks(mi_subproc_main(), -1, true, &abandoned_visitor, NULL)) { viol("abandoned-visit", "mi_abandoned_visit_blocks returned false"); return; }
@@ -366,6 +373,12 @@ static void check_abandoned_visit(void) {
     if (live != 1) viol("abandoned-visit", "mi_abandoned_visit_blocks reported [%p,+%zu) which holds %d live blocks", avis[k].b, avis[k].sz, live);
   }
   printf("O abandoned-visit expected=%zu visited=%zu\n", expect, navis);
+  // returning false from the visitor stops the walk (it must not continue into the next abandoned segment)
+  if (navis >= 2) {
+    stop_calls = 0; stop_seen = 0;
+    bool r = mi_abandoned_visit_blocks(mi_subproc_main(), -1, true, &stopping_visitor, NULL);
+    if (r || stop_calls != 0) viol("abandoned-visit", "the visitor returned false at the first block but mi_abandoned_visit_blocks returned %d and called the visitor %d more times (%zu blocks abandoned)", (int)r, stop_calls, navis);
+  }
 }
 
 static bool count_visitor(const mi_heap_t* heap, const mi_heap_area_t* area, void* block, size_t bsize, void* arg) { (void)heap; (void)area; (void)bsize; if (block != NULL) (*(size_t*)arg)++; return true; }
